@@ -1240,7 +1240,9 @@ func rtpExtensionsFromMediaDescription(m *sdp.MediaDescription) (map[string]int,
 // and increments session version by one.
 // https://tools.ietf.org/html/draft-ietf-rtcweb-jsep-25#section-5.2.2
 func updateSDPOrigin(origin *sdp.Origin, descr *sdp.SessionDescription) {
+	verifYield("origin.enter", origin)
 	if atomic.CompareAndSwapUint64(&origin.SessionVersion, 0, descr.Origin.SessionVersion) { // store
+		verifYield("origin.cas.done", origin)
 		atomic.StoreUint64(&origin.SessionID, descr.Origin.SessionID)
 	} else { // load
 		for { // awaiting for saving session id
@@ -1248,7 +1250,9 @@ func updateSDPOrigin(origin *sdp.Origin, descr *sdp.SessionDescription) {
 			if descr.Origin.SessionID != 0 {
 				break
 			}
+			verifYield("origin.load.retry", origin)
 		}
+		verifYield("origin.load.done", origin)
 		descr.Origin.SessionVersion = atomic.AddUint64(&origin.SessionVersion, 1)
 	}
 }
